@@ -353,5 +353,6 @@ static void case_random(vh_rng* r, long index) {
 
 int main(int argc, char** argv) {
   probes_init();
+  pe_prop = "C12";
   return vh_run(argc, argv, "faults", fixed, case_random);
 }
